@@ -16,10 +16,25 @@ def run(prop, tier, replay):
         out.report({"spec": "TableQuery", "invariant": mc["violated"]}, f"reference semantics violates {mc['violated']}", {})
     rnd = random.Random(vlib.seed())
     hs = Q.histories("dml")
+    # merge_insert must not depend on whether the KEY column is indexed: one more history, for merges only
+    key_idx = ("keyidx-btree", list(Q.BASE) + [{"op": "create_index", "h": "main", "col": "id", "type": "btree"}])
     scenarios = []
-    cap = 900 if tier == "quick" else 100000
-    picked = stmts if len(stmts) * len(hs) <= cap else rnd.sample(stmts, cap // len(hs))
+    cap = 1400 if tier == "quick" else 100000
+    merges = [st for st in stmts if st[-1]["op"] == "merge_insert"]
+    others = [st for st in stmts if st[-1]["op"] != "merge_insert"]
+    if not merges or not any(st[-1]["fails"] for st in merges) or not others:
+        raise vlib.ToolError("TLC generated no (failing) merge_insert statement")
     n = 0
+    # every merge statement, on every history, with and without stable row ids (few and cheap)
+    for name, pre in hs + [key_idx]:
+        for st in merges:
+            for stable in (True, False):
+                n += 1
+                scenarios.append({"id": n, "stable": stable, "hist": name,
+                                  "steps": pre + [Q.stmt_to_step(st[-1]), {"op": "validate"}]})
+    n_merge = n
+    room = max(len(hs), cap - n_merge)
+    picked = others if len(others) * len(hs) <= room else rnd.sample(others, room // len(hs))
     for name, pre in hs:
         for st in picked:
             n += 1
@@ -28,11 +43,13 @@ def run(prop, tier, replay):
     reports, scn_file, build_s = Q.run_scenarios(prop, "dml", scenarios)
     return Q.finish(prop, tier, t0, out, mc, reports, scn_file, len(scenarios),
                     {"DmlMatchesSqlModel"},
-                    ["the key column is non-null and unique in the target (NULL keys / duplicate source keys are not generated)",
+                    ["the key column is non-null and unique in the target; source batches repeat keys only for keys present in the "
+                     "target (a repeated unmatched key would insert two rows with one key; NULL keys are not generated)",
                      "values are small integers; NULL is the only special value",
                      "statements: every predicate of the Sql3VL grammar (depth <= 2 over column val) x delete / update with 3 "
-                     "expressions; merge_insert over 4 sources x 12 option settings; each on an unindexed, btree- and bitmap-indexed table"],
-                    {"statements_generated_by_tlc": len(stmts), "statements_replayed": len(picked), "histories": [h[0] for h in hs],
-                     "exhaustive": len(picked) == len(stmts), "harness_build_s": build_s,
+                     "expressions; merge_insert over 7 sources (3 with repeated keys) x 12 option settings, all replayed with and without stable row ids; each on an unindexed, btree- and bitmap-indexed (val) table, merges also with a btree index on the key"],
+                    {"statements_generated_by_tlc": len(stmts), "statements_replayed": len(picked) + len(merges), "merge_statements": len(merges),
+                     "merge_statements_that_must_fail": sum(1 for st in merges if st[-1]["fails"]), "merge_scenarios": n_merge, "histories": [h[0] for h in hs],
+                     "exhaustive": len(picked) == len(others), "harness_build_s": build_s,
                      "rule": "one scenario per (TLC-generated statement, table history); distinct by construction; non-trivial = the "
                              "statement executed and was judged against Effect() of the reference semantics"})
